@@ -3,6 +3,7 @@ package checks
 import (
 	"bytes"
 	"fmt"
+	"io"
 	"strings"
 	"time"
 
@@ -22,7 +23,7 @@ func init() {
 	vc.Register(&vc.Check{
 		ID:    "C25",
 		Level: "exploration",
-		Rule: "cases: every request script of the C24 alphabet (see C24) with every reply header's Seq checked against the requests already written and record bodies against the stream they belong to; schedules: all executions within the deviation bound (quick 2, thorough 3) of (a) a real IPC eventStream fed by a producer thread with 4 events (member, user x2, query; one more than the filter admits) for 5 filter specs, plus one run crossing the 512-entry buffer, and (b) the real queryResponseStream.Stream on a real Serf.Query result while a network thread delivers acks/responses and virtual time runs serf's close timer and the stream's done timer (both explorable); non-trivial = at least one non-default choice / a script with >=2 reply headers",
+		Rule: "cases: every request script of the C24 alphabet (see C24) with every reply header's Seq checked against the requests already written and record bodies against the stream they belong to; schedules: all executions within the deviation bound (quick 2, thorough 3) of (a) a real IPC eventStream fed by a producer thread with 4 events (member, user x2, query; one more than the filter admits) for 5 filter specs, plus one run crossing the 512-entry buffer, (b) a real agent fanning 3 events out to 3 permanently registered handlers while other handlers (streams) are registered and deregistered, and (c) the real queryResponseStream.Stream on a real Serf.Query result while a network thread delivers acks/responses and virtual time runs serf's close timer and the stream's done timer (both explorable); non-trivial = at least one non-default choice / a script with >=2 reply headers",
 		Assumptions: []string{
 			"the stream's client is a recording harness object (Send is atomic)",
 			"replies reach the node serially; virtual time",
@@ -45,6 +46,7 @@ func c25run(ctx *vc.Ctx) {
 		c25overflow(ctx)
 	}
 	c25query(ctx, bound)
+	c25fanout(ctx, bound)
 }
 
 func c25evs() []serf.Event {
@@ -294,4 +296,76 @@ func c25query(ctx *vc.Ctx, bound int) {
 		return strings.Join(got, " "), "", ""
 	}
 	ctx.Explore(vc.ExploreOpts{Name: "query-stream", Bound: bound, MaxSteps: 4000}, body, check)
+}
+
+type c25rec struct{ got []string }
+
+func (r *c25rec) HandleEvent(e serf.Event) {
+	if u, ok := e.(serf.UserEvent); ok {
+		r.got = append(r.got, u.Name)
+	}
+}
+
+// c25fanout: a real agent fans events out to its registered handlers (every IPC
+// event stream is such a handler) while streams are opened and closed: a handler
+// that stays registered must see every event exactly once, in order.
+func c25fanout(ctx *vc.Ctx, bound int) {
+	var hs []*c25rec
+	names := []string{"e1", "e2", "e3"}
+	body := func() {
+		vsched.Branching(false)
+		vsched.StepsIn("agent.(*Agent).eventLoop", "agent.(*Agent).RegisterEventHandler", "agent.(*Agent).DeregisterEventHandler")
+		hs = nil
+		ac := agent.DefaultConfig()
+		ac.NodeName = "a"
+		sc := world.NewConfig("a", 0, world.NewTransport(), nil)
+		a, err := agent.Create(ac, sc, io.Discard)
+		if err != nil {
+			panic(err)
+		}
+		for i := 0; i < 3; i++ {
+			h := &c25rec{}
+			hs = append(hs, h)
+			a.RegisterEventHandler(h)
+		}
+		if err := a.Start(); err != nil {
+			panic(err)
+		}
+		vsched.Quiesce()
+		vsched.Branching(true)
+		net := vsched.Spawn("network", func() {
+			for i, n := range names {
+				sc.MemberlistConfig.Delegate.NotifyMsg(serf.VEncode(serf.VMsgUserEvent, &serf.VMessageUserEvent{LTime: serf.LamportTime(i + 5), Name: n}))
+			}
+		})
+		reg := vsched.Spawn("streams", func() {
+			x, y := &c25rec{}, &c25rec{}
+			a.RegisterEventHandler(x)
+			a.DeregisterEventHandler(x)
+			a.RegisterEventHandler(y)
+			a.DeregisterEventHandler(y)
+		})
+		net.Join()
+		reg.Join()
+		vsched.Branching(false)
+		vsched.Quiesce()
+		a.Shutdown()
+		vsched.Quiesce()
+	}
+	check := func(x *vsched.Exec) (string, string, string) {
+		if len(x.Panics) > 0 {
+			return "panic", "fan-out panic " + x.Panics[0].Frame, x.Panics[0].Value + "\n" + x.Panics[0].Stack
+		}
+		if !x.RootDone {
+			return "stuck", "deadlock", fmt.Sprintf("blocked %+v", x.Blocked)
+		}
+		want := strings.Join(names, ",")
+		for i, h := range hs {
+			if g := strings.Join(h.got, ","); g != want {
+				return "lost-or-dup", "fan-out: a handler registered throughout missed or repeated an event", fmt.Sprintf("handler %d stayed registered while other streams were opened and closed; events %s were delivered to the agent in this order, the handler received [%s]", i, want, g)
+			}
+		}
+		return "all-" + want, "", ""
+	}
+	ctx.Explore(vc.ExploreOpts{Name: "agent-fan-out", Bound: bound, MaxSteps: 50000}, body, check)
 }
